@@ -257,6 +257,16 @@ impl Exec {
             }
             Err(_) => self.fail("C15", "in_order_traversal panicked with a minimal visitor".into()),
         }
+        // the node iterator through count / last / nth / skip / size_hint / by_ref / two at once
+        let t = self.trees.get(&id).unwrap().tree.as_ref().unwrap();
+        match catch_unwind(AssertUnwindSafe(|| t.iter_probes())) {
+            Ok(None) => {}
+            Ok(Some(what)) => self.fail("C17", what),
+            Err(_) => {
+                self.fail("C15", "node_iter panicked when used through nth / skip / last / count / size_hint".into());
+                self.fail("C17", "node_iter panicked when used through nth / skip / last / count / size_hint".into());
+            }
+        }
         self.tick("C09");
         for m in c09 {
             self.fail("C09", m);
